@@ -3,15 +3,15 @@ package main
 import (
 	"bufio"
 	"bytes"
-	"io"
-	"sync/atomic"
 	"context"
 	"fmt"
+	"io"
 	"os"
 	"os/exec"
 	"path/filepath"
 	"strings"
 	"sync"
+	"sync/atomic"
 	"time"
 )
 
